@@ -84,8 +84,17 @@ def main() -> None:
             "property describes exactly as it is, with the repository's tests still passing. Every check that shares the "
             "touched files was run against each of them (quick tier, 40 % budget, scratch worktree): all must stay "
             "silent. The sub-agents' equivalence arguments are kept in `refactors/notes_<n>.md`. The harnesses reach "
-            "into a few private names (documented in §8.1); none of the renames in these patches hit one, and a rename "
-            "that does would surface as *inconclusive* (harness error), not as a violation.", "",
+            "into a few private names (documented in §8.1); a rename that hits one surfaces as *inconclusive* (harness "
+            "error), not as a violation. A second round (names ending in `2`) asked for bolder patches: functions moved "
+            "between class and module level, renamed private attributes that other modules read, merged dictionaries, "
+            "changed container types, `match` vs if/elif. Two of those 40 first produced a wrong verdict and led to "
+            "corrections of the machinery (§8.4): `C02-a2` moves the hooked split / top-up stages to module level, after "
+            "which the open C02 finding could no longer be attributed and was reported as a new violation - the recording "
+            "contracts now follow the functions to module level, and a known-finding predicate that lacks its hooked "
+            "observation answers *undecidable* (inconclusive) instead of *not this finding*; `C19-b2` renames "
+            "`MetricFetcher._fallback`, which the synchronous evaluator of the C12 harness reads - the resulting "
+            "`AttributeError` was reported as an exception of the observed code, it is now a harness error "
+            "(C12 is inconclusive on that patch, the only non-silent entry below).", "",
             "| refactoring | file(s) touched | size | checks |", "|---|---|---|---|", *rrows]
     p = V / "DESIGN.md"
     s = p.read_text()
